@@ -339,10 +339,19 @@ def timeIsZero (sec nsec : Int) : Bool := sec = zeroTimeSec ∧ nsec = 0
 /-- Go's `/` on int64 truncates toward zero -/
 def goDiv (a b : Int) : Int := Int.tdiv a b
 
+/-- Go's `%` on int64: the remainder has the sign of the dividend -/
+def goMod (a b : Int) : Int := Int.tmod a b
+
 def millisInADay : Int := 86400000
 
-/-- marshalDate's `encInt(int32(timestamp/millisecondsInADay + int64(1<<31)))` -/
-def encDateMillis (ts : Int) : Bytes := encInt (toS 32 (goDiv ts millisInADay + 2147483648))
+/-- marshal.go daysSinceEpoch (repair of KF-C12-4): `days := ts / millisecondsInADay; if ts % millisecondsInADay < 0 { days-- }`
+    — the day that CONTAINS the instant (floor), also before 1970 -/
+def daysSinceEpoch (ts : Int) : Int :=
+  let days := goDiv ts millisInADay
+  if goMod ts millisInADay < 0 then days - 1 else days
+
+/-- marshalDate's `encInt(int32(daysSinceEpoch(timestamp) + int64(1<<31)))` -/
+def encDateMillis (ts : Int) : Bytes := encInt (toS 32 (daysSinceEpoch ts + 2147483648))
 
 /-- unmarshalTimestamp into *time.Time: sec := x/1000; nsec := (x - sec*1000)*1e6; time.Unix normalises -/
 def timeOfMillis (x : Int) : Int × Int :=
